@@ -152,9 +152,9 @@ impl Prop for C02P {
             vec![
                 sec("pinned", 200),
                 sec_ex("operator-table", (9 * NOPER * NOPER) as u64),
-                sec("explicit-programs", tier.pick(12_000, 250_000)),
-                sec("inferred-programs", tier.pick(6_000, 120_000)),
-                sec("planted-effects", tier.pick(4_000, 80_000)),
+                sec("explicit-programs", tier.pick(36_000, 250_000)),
+                sec("inferred-programs", tier.pick(18_000, 120_000)),
+                sec("planted-effects", tier.pick(10_000, 80_000)),
             ],
             "generated explicit and inferred programs (integers beyond 64 and 200 bits, recursion, mutual recursion, groups of 1-5 definitions, higher-order and polymorphic functions) run by gram and by an environment-based call-by-value reference interpreter on the source AST; every arithmetic and comparison operator on every pair of 17 operands (0, +-1..3, +-7, +-2^63, +-2^64, +-(2^64+1), +-(2^200+12345)); int programs wrapped so that a division by zero sits in an evaluated or an unevaluated position (8 placements); gram's step budget is 20 x reference reductions + 200; non-trivial = distinct program on which both sides produced an outcome that was compared",
         );
